@@ -5,10 +5,31 @@ NOTES = ("Contract-based deductive verification of the real Python source (pyvc,
 PYVC_NOTE = ("Trusted: the pyvc executor's encoding of Python/NumPy semantics (cross-checked against CPython, see DESIGN 1.8), z3/cvc5, "
              "the axioms listed in evidence.assumptions, and the surrounding code named 'Out' in DESIGN section 3.")
 CLAIMED = {
+    "C05": ("Unbounded proofs with loop invariants over a symbolic heap: GreedyAllocator.alloc keeps current_allocs sorted/disjoint, places the new "
+            "range aligned and disjoint from every live entry and tracks memory_required exactly; HillClimb allocate_lr terminates (variant) "
+            "and avoids every allocated neighbour; iteration bound / memory limit resolution of the constructor (slice). Remaining allocator "
+            "functions are listed as not yet under contract in the evidence.",
+            PYVC_NOTE + " Stable-sort insertion axiom for sorted(); LiveRange.set_address treated as returning its argument.",
+            "contract-based deductive verification (symbolic execution of real AST + SMT, loop invariants, heap model)", "DESIGN.md 3/C05"),
     "C09": ("Unbounded proof, per function and per numeric argument type, that quantise_scale & co compute exactly the TFLite "
             "reference multiplier/shift (bit-exact IEEE-754 reasoning in z3 FloatingPoint + bit-vectors) and the stated error/range bounds; "
-            "a ∀-statement over all floats that tests can only sample.",
+            "average-pool divisor lemma per window-size class for all accumulators below 2**30; a forall-statement tests can only sample.",
             PYVC_NOTE, "contract-based deductive verification (symbolic execution of real AST + SMT)", "DESIGN.md 3/C09"),
+    "C17": ("Unbounded proof over all word lists (symbolic length and content) that the payload is COP1, config action, NOP padding to a "
+            "16-byte boundary, a length word equal to the stream length, then the words unmodified; VelaError iff len >= 2**24. Accelerator-"
+            "dependent words by exhaustive native evaluation over the finite domain (6 accelerators, all ordered pairs of calls).",
+            PYVC_NOTE + " struct.pack('<nI') axiomatised as little-endian concatenation.",
+            "contract-based deductive verification + exhaustive evaluation of the finite accelerator domain", "DESIGN.md 3/C17"),
+    "C18": ("Unbounded proof that _read_config implements the documented inheritance rule (recursive spec, modular recursion) and rejects unknown / "
+            "self-inheriting sections; that the tail of _get_vela_config enforces legal memory-area mappings, size range and CLI-over-file precedence for "
+            "every state the reading part can produce (suffix slice). Path lookup and argparse wiring of vela.main are bounded stand-ins.",
+            PYVC_NOTE + " ConfigParser abstracted as an uninterpreted section/key map; strings known up to identity.",
+            "contract-based deductive verification (recursive spec functions, mechanical slices) + labelled bounded stand-in for vela.main", "DESIGN.md 3/C18"),
+    "C19": ("Unbounded proof that every fp_math helper equals the gemmlowp reference (written as mathematical functions on Z) for each integer "
+            "type that reaches it from a call site, including NumPy fixed-width wrap-around semantics, all exponents/shifts exhaustively; "
+            "exp_on_negative_values proved equal to the reference composition.",
+            PYVC_NOTE + " LUT generators (convert_*_to_lut, optimise_quantize) are not yet under contract in this revision.",
+            "contract-based deductive verification (symbolic execution of real AST + SMT, nonlinear products abstracted soundly)", "DESIGN.md 3/C19"),
 }
 PLANNED = "claimed in DESIGN.md; its contracts are not built yet in this revision, so no check is registered"
 NOT_APPLICABLE = {
@@ -20,6 +41,6 @@ NOT_APPLICABLE = {
     "C13": "totality of the whole compiler; per-function no_exception obligations do not decide it (DESIGN 4)",
     "C14": "2-safety over process histories and global mutable state (DESIGN 4)",
     "C16": "pipeline-emergent placement and natural-language report text (DESIGN 4)",
-    "C02": PLANNED, "C04": PLANNED, "C05": PLANNED, "C06": PLANNED, "C08": PLANNED, "C10": PLANNED,
-    "C15": PLANNED, "C17": PLANNED, "C18": PLANNED, "C19": PLANNED,
+    "C02": PLANNED, "C04": PLANNED, "C06": PLANNED, "C08": PLANNED, "C10": PLANNED,
+    "C15": PLANNED, 
 }
